@@ -979,6 +979,123 @@ def explore_histories(ctx, res, bw, histories):
     return len(items)
 
 
+# ------------------------------------------------------------------------------ two refused accesses (characterisation)
+
+# Outside the property's quantifier ("access k alone is refused"): what happens when TWO accesses of one call are
+# refused. Props/C03.lean `C03_two_denials_table` names, per modelled method, either a concrete two-denial plan on
+# world 0 that leaks (replayed here on the real code) or the bounded claim "no pair of refusals leaks on world 0".
+# These are characterisations of the code as it is, NOT findings.
+_D2 = lambda i, j: [[i, "EACCES"], [j, "EACCES"]]
+TWO_DENIAL_LEAKS = {   # method: (world, plan, [exception class, pid]) — the entries of `twoDenialLeaks` in Props/C03.lean
+    "exe": ("w0", {"switch": [[0, "zombie"]], "deny": _D2(1, 2)}, ["FileNotFoundError", None]),
+    "cwd": ("w0", {"switch": [[0, "zombie"]], "deny": _D2(1, 2)}, ["FileNotFoundError", None]),
+    "parent": ("w0", {"deny": _D2(5, 6)}, ["AccessDenied", 101]),
+    "parents": ("w0", {"deny": _D2(5, 6)}, ["AccessDenied", 101]),
+    "children": ("wc", {"deny": _D2(9, 11)}, ["AccessDenied", 105]),
+    "children_recursive": ("wc", {"deny": _D2(9, 11)}, ["AccessDenied", 105]),
+}
+
+
+def two_denial_world(key):
+    if key == "w0":
+        return fixed_worlds()[0]
+    return {"target": 101, "procs": [mk_proc(50, 0, 10), mk_proc(101, 50, 50), mk_proc(105, 101, 100)]}
+TWO_DENIAL_LIVES = ("alive", "zombie")
+
+
+def two_denial_plans(life, trace):
+    sw = [] if life == "alive" else [[0, life]]
+    idx = [k for k, a in enumerate(trace) if scoped(a)]
+    out = []
+    for a in range(len(idx)):
+        for b in range(a + 1, len(idx)):
+            out.append({"switch": sw, "deny": [[idx[a], "EACCES"], [idx[b], "EACCES"]]} if sw else
+                       {"deny": [[idx[a], "EACCES"], [idx[b], "EACCES"]]})
+    return out
+
+
+def explore_two_denials(ctx, res, bw, calls, max_trace=14):
+    """every pair of refused accesses (on the trace of the run with the first one refused) for every call, alive
+    and zombie; model == implementation is REQUIRED (outcome + trace); a non-OK outcome is recorded, and must be one
+    of the methods the Lean table lists as leaking"""
+    items, lines = [], [dict(bw.spec, op="world")]
+    for call in calls:
+        for life in TWO_DENIAL_LIVES:
+            base = {} if life == "alive" else {"switch": [[0, life]]}
+            _, t0, _, _ = bw.run(call, base)
+            if len(t0) > max_trace:
+                continue
+            seen = set()
+            for i, a in enumerate(t0):
+                if not scoped(a):
+                    continue
+                p1 = dict(base, deny=[[i, "EACCES"]])
+                _, t1, _, _ = bw.run(call, p1)
+                for j in range(i + 1, len(t1)):
+                    if not scoped(t1[j]):
+                        continue
+                    plan = dict(base, deny=[[i, "EACCES"], [j, "EACCES"]])
+                    key = json.dumps(plan)
+                    if key in seen:
+                        continue
+                    seen.add(key)
+                    out, tr, unk, _ = bw.run(call, plan)
+                    items.append((call, plan, out, tr, unk))
+                    lines.append(line_for(call, plan, out))
+    ms = ctx.driver().batch(lines)[1:]
+    leaks = res.extra.setdefault("two_denial_leaks", {})
+    for (call, plan, out, tr, unk), m in zip(items, ms):
+        inp = {"world": bw.spec, "call": call, "plan": plan, "two_denials": True}
+        if "bad" in m:
+            raise InfraError("driver rejected %r: %s" % (plan, m))
+        res.count("family:two_denials")
+        res.count("two_denials_world_nprocs:%d" % len(bw.spec["procs"]))
+        res.case((bw.spec["target"], json.dumps(bw.spec, sort_keys=True), json.dumps(call), json.dumps(plan)), nontrivial=True)
+        if unk:
+            res.disagree("model", inp, {"unknown_access": unk}, m["model"], None, note="an OS access of a kind the model does not know")
+            continue
+        if out != m["model"] or tr != m["trace"]:
+            res.disagree("model", inp, {"out": out, "trace": tr}, {"out": m["model"], "trace": m["trace"]}, m["spec"],
+                         note="two refused accesses: outcome / trace differs from the Lean model")
+            continue
+        if not m["spec"]["ok"]:
+            name = call["method"]
+            res.count("two_denials_leak:%s:%s" % (name, out.get("exc")))
+            leaks.setdefault(name, {"plan": plan, "out": out, "world_target": bw.spec["target"], "nprocs": len(bw.spec["procs"])})
+            if name not in TWO_DENIAL_LEAKS:
+                res.disagree("model", inp, out, m["model"], m["spec"],
+                             note="characterisation drift: %s leaks %s under two refused accesses but C03_two_denials_table "
+                                  "lists it as not leaking on this world" % (name, json.dumps(out)))
+    return len(items)
+
+
+def replay_two_denial_table(ctx, res):
+    """each leaking plan of the Lean table on the real code: same outcome + trace as the model, and not OK"""
+    for key in ("w0", "wc"):
+        bw = BuiltWorld(ctx.psutil, two_denial_world(key))
+        try:
+            lines, items = [dict(bw.spec, op="world")], []
+            for name, (wk, plan, expect) in sorted(TWO_DENIAL_LEAKS.items()):
+                if wk != key:
+                    continue
+                call = {"method": name}
+                out, tr, unk, _ = bw.run(call, plan)
+                items.append((call, plan, out, tr, expect))
+                lines.append(line_for(call, plan, out))
+            ms = ctx.driver().batch(lines)[1:]
+            for (call, plan, out, tr, expect), m in zip(items, ms):
+                inp = {"world": bw.spec, "call": call, "plan": plan, "two_denials": True}
+                res.count("two_denials_table_replayed")
+                res.case((bw.spec["target"], json.dumps(bw.spec, sort_keys=True), json.dumps(call), json.dumps(plan)), nontrivial=True)
+                got = [out.get("exc"), out.get("pid")] if out["kind"] == "exc" else ["value", None]
+                if "bad" in m or out != m["model"] or tr != m["trace"] or m["spec"]["ok"] or got != list(expect):
+                    res.disagree("model", inp, out, m.get("model"), m.get("spec"),
+                                 note="two-denial table entry for %s does not replay on the real code: expected %s, got %s (model %s)"
+                                      % (call["method"], expect, json.dumps(out), json.dumps(m.get("model"))))
+        finally:
+            bw.close()
+
+
 def explore_world(ctx, res, bw, calls, doubles, batch, budget=None):
     n = 0
     for call in calls:
@@ -1026,6 +1143,7 @@ def correspond(ctx, res):
         worlds.append(random_tree_world(ctx.rng))
     batch = Batch(ctx, res)
     total = 0
+    replay_two_denial_table(ctx, res)
     for wi, spec in enumerate(worlds):
         bw = BuiltWorld(ps, spec)
         try:
@@ -1050,6 +1168,10 @@ def correspond(ctx, res):
             n = explore_world(ctx, res, bw, calls, doubles, batch)
             res.count("family:flat", n)
             total += n
+            if wi in (0, 1) or (thorough and wi < nfixed - N_TREE):
+                # family `two_denials` (characterisation, outside the property's quantifier)
+                cs = [c for c in calls_for(ps, ctx.tier, all_attrs=False) if c["method"] not in ("as_dict", "process_iter")]
+                total += explore_two_denials(ctx, res, bw, cs, max_trace=(14 if not thorough else 40) if wi else 60)
             if wi in (0, 1, nfixed - N_TREE) or (thorough and wi < nfixed + 3):
                 # family `history`: several calls on ONE object, the process vanishing at every index of the history
                 hs = list(FIXED_HISTORIES) if wi in (0, 1) else FIXED_HISTORIES[:2]
